@@ -159,7 +159,14 @@ def g_fteik(rs, nd):
     nsweep = int(rs.choice([1, 2, 3]))
     grad = bool(rs.rand() < 0.5)
     k = "Fteik2d.fteik2d" if nd == 2 else "Fteik3d.fteik3d"
-    return k, [slow] + list(d) + list(src) + [nsweep, grad], {"kind": kind, "shape": cells, "scls": scls}
+    meta = {"kind": kind, "shape": cells, "scls": scls}
+    if max(d) / min(d) >= 4:
+        # (finding F23) a gradient component is a difference quotient of traveltimes across one cell, normalised: in cells
+        # elongated >= 4:1 a rounding-size difference dt of the traveltimes (the model is plain IEEE, the interpreter uses
+        # pow, the compiled build contracts to FMA) becomes 2 dt / (d_min * |grad t|) of the unit vector; |grad t| is
+        # about the local slowness.  Entries of magnitude <= 1 get that much slack in such cases.
+        meta["grad_amp"] = float(1.0 / (min(d) * float(np.min(slow))))
+    return k, [slow] + list(d) + list(src) + [nsweep, grad], meta
 
 
 def g_shrink(rs):
@@ -281,17 +288,20 @@ GROUPS = {
 
 
 # ----------------------------------------------------------------------------- comparison
-def close(a, b, scale, rtol=1e-9):
+def close(a, b, scale, rtol=1e-9, amp=None):
     if math.isnan(a) or math.isnan(b):
         return math.isnan(a) and math.isnan(b)
     if a == b:
         return True
     if math.isinf(a) or math.isinf(b):
         return False
-    return abs(a - b) <= rtol * scale + 4 * math.ulp(max(abs(a), abs(b)))
+    tol = rtol * scale + 4 * math.ulp(max(abs(a), abs(b)))
+    if amp and max(abs(a), abs(b)) <= 1.0 + 1e-12:
+        tol += 2 * rtol * scale * amp
+    return abs(a - b) <= tol
 
 
-def compare(x, y, rtol=1e-9):
+def compare(x, y, rtol=1e-9, amp=None):
     """x, y: {'status', 'flat'}; returns None if they agree, else a short description"""
     if x["status"] != y["status"]:
         return f"status {x['status']} vs {y['status']}"
@@ -301,7 +311,7 @@ def compare(x, y, rtol=1e-9):
     fin = [abs(v) for v in fa + fb if not (math.isnan(v) or math.isinf(v)) and abs(v) < 0.99 * BIG]
     scale = max(fin) if fin else 1.0
     for k, (a, b) in enumerate(zip(fa, fb)):
-        if not close(a, b, scale, rtol):
+        if not close(a, b, scale, rtol, amp):
             return f"value[{k}] {a!r} vs {b!r} (scale {scale:g})"
     return None
 
@@ -349,17 +359,18 @@ def run(groups, n_per_group, seed, workdir, modes=("jit", "interp"), jobs=8):
             report["hangs"].append({"index": idx, "kernel": k, "meta": meta_json(meta),
                                     "model_status": model[idx]["status"]})
             continue
-        if rj is not None and ri is not None and compare(rj, ri) is not None:
-            report["unstable"].append({"index": idx, "kernel": k, "why": compare(rj, ri), "meta": meta_json(meta)})
+        amp = meta.get("grad_amp")
+        if rj is not None and ri is not None and compare(rj, ri, amp=amp) is not None:
+            report["unstable"].append({"index": idx, "kernel": k, "why": compare(rj, ri, amp=amp), "meta": meta_json(meta)})
             # the model must still agree with one of them at branch level
-            if compare(model[idx], rj) is None or compare(model[idx], ri) is None:
+            if compare(model[idx], rj, amp=amp) is None or compare(model[idx], ri, amp=amp) is None:
                 gr["agree"] += 1
                 continue
         bad = None
         for name, r in (("jit", rj), ("interp", ri)):
             if r is None:
                 continue
-            why = compare(model[idx], r)
+            why = compare(model[idx], r, amp=meta.get("grad_amp"))
             if why is not None:
                 bad = f"model vs {name}: {why}"
                 break
